@@ -92,8 +92,10 @@ pub fn scenario(ctx: &mut Ctx, r: &mut StdRng) -> (Vec<RawFinding>, Value) {
         let op = join(&o);
         let fp = pb(&root, &sp);
         let _ = std::fs::create_dir_all(fp.parent().unwrap());
-        let body = format!("source {k} head\n-TXTPP#run echo ran {k}\nsource {k} tail\n");
-        let want = format!("source {k} head\nran {k}\nsource {k} tail\n");
+        // (every other source uses CRLF: the line ending has to be sniffed through the raw path too)
+        let le = if k % 2 == 1 { "\r\n" } else { "\n" };
+        let body = format!("source {k} head{le}-TXTPP#run echo ran {k}{le}source {k} tail{le}");
+        let want = format!("source {k} head{le}ran {k}{le}source {k} tail{le}");
         std::fs::write(&fp, body).expect("write raw-named source");
         expected.push((op.clone(), want.into_bytes()));
         srcs_rel.push(sp);
@@ -116,7 +118,7 @@ pub fn scenario(ctx: &mut Ctx, r: &mut StdRng) -> (Vec<RawFinding>, Value) {
         run_inproc(&cfg, Spec::Free { delay: None }, Some(&root), false)
     };
     let is_allowed = |p: &Vec<u8>| expected.iter().any(|(o, _)| o == p);
-    let mut check_untouched = |before: &RawSnap, after: &RawSnap, mode: &'static str, findings: &mut Vec<RawFinding>, outputs_too: bool| {
+    let check_untouched = |before: &RawSnap, after: &RawSnap, mode: &'static str, findings: &mut Vec<RawFinding>, outputs_too: bool| {
         for (p, b) in before {
             if is_allowed(p) && !outputs_too {
                 continue;
